@@ -58,10 +58,10 @@ claim("C07", V,
       "Verus contracts on the extracted MotionProfile::{new,get_acceleration,get_velocity,get_position} over the extracted Unit/Quantity/Time operator layer: exact expression trees + idealised closed forms over the reals; trapezoid lemmas over the real-valued trajectory",
       "The accessors are proved to compute vel_r/pos_r (the three closed forms per phase) over the reals, with integer nanosecond arithmetic exact and no unit-check panic or overflow; lemmas over vel_r/pos_r prove v(0)=v0, p(0)=p0, continuity of velocity and position at both joins, position is the integral of velocity in each phase (trapezoid identity), the velocity bound, and arrival at the end state for the constructor's kinematic durations; the constructor either panics or returns ordered boundaries, with max_acc = |max_acc| * sign(displacement).",
       V_BASE + "A7; idealised (A3): the epsilon-proportional tolerances and sub-nanosecond truncations are listed as not decided.")
-claim("C08", K,
+claim("C08", "kani+verus",
       "Kani proof harnesses on Invert/GearTrain/Axle<N>/Differential::update with the crate's State operator impls replaced by deterministic uninterpreted stand-ins (-Z stubbing): the stored states are compared with the expected expression trees",
       "For every have/lack subset of terminal data and all four differential trust modes: which terminals are written, with which expression tree of the readings (written out in each obligation's clause), stamped with the newest contributing time; fill-in of terminals without information; differential waits for every trusted branch; GearTrain::new ratio and sign; no panic. Axle complete per size N.",
-      K_BASE + "Operator stand-ins: anything proved holds for every interpretation of the operators, the real ones have their own contracts (C14, C03). The real-number meaning of the trees (constraint satisfied, least squares) is elementary algebra on the listed trees and is not mechanised.")
+      K_BASE + "Operator stand-ins: anything proved holds for every interpretation of the operators, the real ones have their own contracts (C14, C03). The real-number meaning of those trees (constraint satisfied, least-squares projection for any number of axle terminals, fixed points, distrusted branch) is proved as Verus lemmas (unit c08_meaning) over the formulas quoted in the Kani obligations; the formula-to-code link is the Kani tree obligation plus A3.")
 claim("C09", K,
       "Kani proof harness: one symbolic connect/disconnect step over an arbitrary symmetric matching of n real RefCell<Terminal> cells with symbolic slots (private fields set from inside the crate); read contracts per getter",
       "After one symbolic operation from ANY symmetric matching: no panic (RefCell double borrows are panics Kani reports), links again a symmetric matching, exactly the expected pairs changed, all slots untouched - one step over arbitrary matchings covers every operation sequence. State read = mean of own and partner (or whichever exists), command read = newer (own wins ties), combined read consistent; connected terminals read the same state. The connect() double-borrow defect was found here and repaired (known_findings.txt).",
